@@ -38,8 +38,9 @@ META = {
     'level_note': 'Trusted: Lean kernel (propext, Classical.choice, Quot.sound only); the hand transcription Model/Patch.lean, validated on every '
                   'run by executing it next to the real code on generated histories (whole-image diff + behaviour after each step); tools/gen for '
                   'the emitter. Measured, not modelled: function sizes, first bytes, funcval addresses and the outcome of the placeholder '
-                  'relocation (C03) enter the model as parameters that the theorems quantify over. Not reachable through Go-compiled targets and '
-                  'therefore proved but not exercised: the too-small and already-patched exits of replaceFunc. Out of scope: internal-only '
+                  'relocation (C03) enter the model as parameters that the theorems quantify over. The too-small and already-patched exits of replaceFunc are not '
+                  'reachable through Go-compiled targets: they are exercised on synthetic code by the oracle-only patch-level lane c02.plow (internal/patch driven '
+                  'directly, also patch.Unpatch of an unpatched function). Out of scope: internal-only '
                   'Guard.Restore/UnpatchAll, concurrency (C11). Kept mocker handles (keep / Apply / Return / Cancel through the handle, every via incl. by-name and method values) '
                   'and the two-level Struct(x) -> Method(m)/ExportMethod(m) lookup with a kept struct mocker are modelled ops (plus the older oracle-only lane c02.stale, defect F16); the generators never look a function up afresh while its '
                   'kept handle is cancelled: that orphans the handle (the builder replaces its cache entry, Reset cannot reach the old mocker) — '
@@ -48,7 +49,7 @@ META = {
 }
 
 GEN = ['JmpAmd64']
-NT, NP = 20, 4
+NT, NP = 21, 4
 T_METHODS = {7, 8, 9}               # methods of T: Struct(&T{}).Method / ExportMethod, ExportStruct("*T").Method, method expression, by name, method value
 L_METHODS = {12, 13, 14, 15, 16}    # the family Add / Addf / Addm / Addfm / Addmf of L: method expression, by name, method value
 S_METHODS = {17}                    # M7 of the namesake type T of a second package (same Type.String()): Struct(&sub.T{}).Method, expression, value
@@ -56,7 +57,7 @@ LITERALS = {10, 11}                 # func literal in a package variable, closur
 GENERICS = {5, 18}                  # one generic function instantiated at int and at int64 (different shapes, same name)
 METHODS = T_METHODS | L_METHODS | S_METHODS
 VIAS = {0: 'fe', 1: 'fe', 2: 'fe', 3: 'fe', 4: 'fe', 5: 'f', 6: 'fe', 7: 'fmeuvx', 8: 'fmeuvx', 9: 'feuvx', 10: 'f', 11: 'f',
-        12: 'fevv', 13: 'fevv', 14: 'fevv', 15: 'fevv', 16: 'fevv', 17: 'fmmv', 18: 'f', 19: 'p'}
+        12: 'fevv', 13: 'fevv', 14: 'fevv', 15: 'fevv', 16: 'fevv', 17: 'fmmv', 18: 'f', 19: 'p', 20: 'fe'}
 
 # goom reads these from the environment of the process it runs in (GOOM_DEBUG wraps every callback in a MakeFunc stub):
 # the probes must not inherit them from whoever calls the check
@@ -115,6 +116,7 @@ CORPUS = [  # hand-written scenarios that always run first (1 builder unless the
     '2 | w 0 f 5 1 ; w 1 f 18 2 ; a 0 f 5 3 ; k 1 f 18 ; A 1 f 18 0 ; C 1 f 18 ; R 1 f 18 5 ; x 0 ; x 1',   # generic targets: adapter, exact arguments
     '1 | a 0 f 0 1 ; ab 0 f 0 ; ab 0 f 3 ; r 0 f 3 1 ; ab 0 f 3 ; x 0',
     '2 | Y 0 ; a 0 f 1 1 ; Y 1 ; a 1 e 4 2 ; a 1 e 0 3 ; x 0 ; x 1',
+    '1 | a 0 f 20 1 ; x 0 ; a 0 f 20 2 0 ; x 0 ; a 0 e 20 3 1 ; r 0 f 20 4 2 ; x 0',   # refused re-mock (error return inside replaceFunc) after Reset
     '2 | a 0 e 4 1 ; a 0 p 19 2 ; a 1 p 19 3 ; a 1 e 4 0 ; c 0 p 19 ; x 1 ; x 0',     # same name, two packages: Pkg(path).ExportFunc
     '2 | a 1 e 4 1 ; a 1 x 7 2 ; a 1 u 9 3 ; k 1 e 2 ; A 1 e 2 0 ; x 1',
     # two-level struct lookup: K keeps sm := b.Struct(x); sa/sr/sw/sc/sk go through sm, a/r/w/c/k through a fresh b.Struct(x)
@@ -125,7 +127,7 @@ CORPUS = [  # hand-written scenarios that always run first (1 builder unless the
     '1 | K 0 ; sk 0 m 8 ; A 0 m 8 1 ; C 0 m 8 ; A 0 m 8 2 ; c 0 m 8 ; x 0',
     '1 | K 0 ; K 0 ; sw 0 m 8 1 3 ; a 0 u 9 1 ; sc 0 u 9 ; sa 0 u 9 2 ; x 0',
 ]
-MALFORMED = ['1 | a 0 q 0 1', '1 | a 0 m 0 1', '1 | a 3 f 0 1', '1 | z 0', '1 | a 0 f 0 9', '1 | a 0 f 0 1 3', '1 | a 0 f 0', '1 | w 0 u 9 1', '1 | w 0 f 7 1', '1 | A 0 f 0 1', '1 | k 0 f 0 ; C 0 e 0', '1 | k 0 v 0', '1 | k 0 f 0 1', '1 | sa 0 m 7 1', '1 | K 0 ; sa 0 f 0 1', '1 | K 0 1', '1 | K 0 ; sa 0 e 7 1', '1 | a 0 e 10 1', '1 | a 0 m 12 1', '1 | a 0 v 12 1 3', '1 | a 0 f 20 1', '1 | a 0 e 19 1', '1 | a 0 p 4 1', '1 | a 0 v 10 1', '1 | a 0 e 17 1', '1 | a 0 x 12 1', '1 | ab 0 e 0', '1 | Y 0 1', '1 | a 0 f 18 1 0', '1 | K 0 ; sa 0 m 17 1']
+MALFORMED = ['1 | a 0 q 0 1', '1 | a 0 m 0 1', '1 | a 3 f 0 1', '1 | z 0', '1 | a 0 f 0 9', '1 | a 0 f 0 1 3', '1 | a 0 f 0', '1 | w 0 u 9 1', '1 | w 0 f 7 1', '1 | A 0 f 0 1', '1 | k 0 f 0 ; C 0 e 0', '1 | k 0 v 0', '1 | k 0 f 0 1', '1 | sa 0 m 7 1', '1 | K 0 ; sa 0 f 0 1', '1 | K 0 1', '1 | K 0 ; sa 0 e 7 1', '1 | a 0 e 10 1', '1 | a 0 m 12 1', '1 | a 0 v 12 1 3', '1 | a 0 f 21 1', '1 | a 0 e 19 1', '1 | a 0 p 4 1', '1 | a 0 v 10 1', '1 | a 0 e 17 1', '1 | a 0 x 12 1', '1 | ab 0 e 0', '1 | Y 0 1', '1 | a 0 f 18 1 0', '1 | K 0 ; sa 0 m 17 1']
 
 
 def gen_history(rng, maxlen=25, allow_orphan=False):
@@ -205,7 +207,7 @@ def gen_history(rng, maxlen=25, allow_orphan=False):
             continue
         o = ''
         if rng.chance(1, 4):
-            o = ' 3' if t in T_METHODS else ('' if (t in METHODS or t >= 18) else f' {rng.below(3)}')
+            o = ' 3' if t in T_METHODS else ('' if (t in METHODS or t in (18, 19)) else f' {rng.below(3)}')
         if r < 75:
             steps.append(f'{pre}a {b} {via} {t} {rng.below(4)}{o}')
         elif r < 90:
@@ -487,6 +489,28 @@ def shape_oracle(obs):
     return None
 
 
+# ------------------------------------------------------------------ oracle-only lane: internal/patch driven directly
+
+PLOW = ['c02.plow']
+PLOW_WANT = ('A:tiny=refused/same,refused/same,refused/same nop=refused/same,refused/same '
+             'nb=accepted/diff@0x108+13/same,accepted/diff@0x108+13/same '
+             'B:n0=c1 unpatch(H10)=false n0=c1 reset=o end d=-')
+
+
+def plow_oracle(obs):
+    """The exits of replaceFunc that no Go-compiled target reaches (too short, NOP sentinel) refuse EVERY attempt and write nothing;
+    an ordinary neighbour gets exactly 13 bytes and gets them back; Unpatch of an unpatched function changes nothing."""
+    if obs is None:
+        return 'no observation'
+    if obs.startswith('crash'):
+        return 'the process died: ' + obs
+    if obs.startswith('A:no-exec-memory'):
+        raise C.Infra('the sandbox gives no executable anonymous memory to the patch-level lane')
+    if obs != PLOW_WANT:
+        return f'observed `{obs}`, wanted `{PLOW_WANT}`'
+    return None
+
+
 # ------------------------------------------------------------------ run
 
 def execute(hists, tag='run'):
@@ -649,6 +673,13 @@ def run(tier):
         out.violation(f'`b.Func(Q[*ShA]).Apply(cb)` and Q[*ShB]: {shape_why}',
                       {'kind': 'impl-oracle-gcshape', 'ops': SHAPE, 'observed': shape_obs[0], 'why': shape_why,
                        'how': 'python3 check.py C02 --replay <this file>'}, key='generic-same-shape')
+    # 1d. oracle-only lane: the patch layer on synthetic code (size / sentinel refusals, exact 13 bytes) and patch.Unpatch of an unpatched function
+    plow_obs = run_shard(binary, PLOW, 'plow', test='TestVerifC02Stale')
+    plow_why = plow_oracle(plow_obs[0])
+    if plow_why:
+        out.violation(f'patch-level lane: {plow_why}',
+                      {'kind': 'impl-oracle-patch-level', 'ops': PLOW, 'observed': plow_obs[0], 'why': plow_why,
+                       'how': 'python3 check.py C02 --replay <this file>'})
     # 2. correspondence
     if model is None:
         proof['failed'].append(('goomdrv', 'driver does not build: ' + derr[-500:]))
@@ -688,6 +719,7 @@ def run(tier):
         'stale_handle_lane': {'lines': len(STALE), 'failing': len(stale_bad), 'note': 'oracle on the implementation only; not part of the model'},
         'orphan_lane': {'histories': len(orphan), 'with_known_finding': len(known_hits)},
         'gcshape_lane': {'observed': shape_obs[0]},
+        'patch_level_lane': {'observed': plow_obs[0]},
         'samples': [{'hist': hists[i], 'impl': impl[i], 'model': model[i] if model else None} for i in (0, len(hists) // 2, len(hists) - 1)],
     }
     out.assumptions = ['the CPU executes the bytes that are in the image (behaviour is additionally observed by calling)',
@@ -697,6 +729,11 @@ def run(tier):
 
 def replay(body):
     hists = body.get('ops', [])
+    if hists and hists[0].startswith('c02.plow'):
+        obs = run_shard(build_probe(), hists, 'plow-replay', test='TestVerifC02Stale')
+        why = plow_oracle(obs[0])
+        print(f'{hists[0]}\n  impl : {obs[0]}\n  oracle: {why or "ok"}')
+        return 1 if why else 0
     if hists and hists[0].startswith('c02.shape'):
         obs = run_shard(build_probe(), hists, 'shape-replay', test='TestVerifC02Stale')
         why = shape_oracle(obs[0])
